@@ -45,7 +45,7 @@ func remapWeights(weights *model.Weights) *model.Weights {
 
 func validateAllCriteriaAreGain(criteria *model.Criteria) {
 	for _, c := range *criteria {
-		if c.Type != model.Gain {
+		if !c.IsGain() {
 			panic(fmt.Errorf("%s: only Gain criteria acceptable for Choquet integral", c.Id))
 		}
 	}
